@@ -89,6 +89,23 @@ func (block *CBlock) canPick(src *Candidate, dst *Candidate) bool {
 	}
 }
 
+// registeredCandidates returns the candidates of the global list that are registered in this block's account state.
+// The global list keeps every candidate that ever changed (an unregistered one stays in it with 0 votes)
+func (block *CBlock) registeredCandidates() []*Candidate {
+	all := block.CandidateTrieDB.GetAll()
+	result := make([]*Candidate, 0, len(all))
+	for _, candidate := range all {
+		account, err := block.AccountTrieDB.Get(candidate.Address)
+		if err != nil || account == nil {
+			continue
+		}
+		if account.Candidate.Profile[types.CandidateKeyIsCandidate] == types.IsCandidateNode {
+			result = append(result, candidate)
+		}
+	}
+	return result
+}
+
 func (block *CBlock) updateTop(changedCandidates []*Candidate) {
 	newTop := block.Top.Clone()
 	// remove unregistered candidates
@@ -103,7 +120,7 @@ func (block *CBlock) updateTop(changedCandidates []*Candidate) {
 	} else if block.Top.Count() > newTop.Count() {
 		// some candidates unregistered. so maybe some normal nodes will become new candidates
 		// resort all candidates
-		block.Top.Rank(max_candidate_count, block.CandidateTrieDB.GetAll())
+		block.Top.Rank(max_candidate_count, block.registeredCandidates())
 	} else if newTop.Min().Total.Cmp(block.Top.Min().Total) >= 0 {
 		// the min votes become bigger, it means some old candidates get richer now.
 		// the other candidates whose vote is not changed, must not be in the top list. so we can just use the newTop
@@ -112,7 +129,7 @@ func (block *CBlock) updateTop(changedCandidates []*Candidate) {
 		// the min votes become smaller, it means some old candidates lose their vote.
 		// maybe the loser candidates will become normal nodes, and some normal nodes will become new candidates
 		// resort all candidates
-		block.Top.Rank(max_candidate_count, block.CandidateTrieDB.GetAll())
+		block.Top.Rank(max_candidate_count, block.registeredCandidates())
 	}
 }
 
